@@ -44,7 +44,7 @@ def gen_family(name, consts, *, timeout=900, workers=8, simulate=None, depth=Non
 
 
 def decorate(scs, *, seed, calls_choices=(("invoke",), ("stream",), ("invoke", "stream"), ("stream", "invoke")),
-             snode_frac=0.35, strm_branch_frac=0.3, noid_frac=0.0, state_frac=0.0):
+             snode_frac=0.35, strm_branch_frac=0.3, noid_frac=0.0, state_frac=0.0, fail_variants=False):
     """Secondary dimensions that TLC does not enumerate are spread deterministically (seeded) over the scenarios."""
     rnd = random.Random(seed)
     for i, sc in enumerate(scs):
@@ -57,7 +57,15 @@ def decorate(scs, *, seed, calls_choices=(("invoke",), ("stream",), ("invoke", "
             sc["noid"] = True
         if state_frac and not sc.get("state") and rnd.random() < state_frac:
             sc["state"] = True
-        sc.setdefault("maxcalls", 40)
+        if fail_variants and sc.get("fail"):
+            # spread the failure kinds TLC does not enumerate: a second failing node in parallel, cancellation from inside a node
+            r = rnd.random()
+            others = [n for n in sc["nodes"] if n != sc["fail"][0]["n"]]
+            if r < 0.15 and others:
+                sc["fail"] = sc["fail"] + [{"n": others[rnd.randrange(len(others))], "kind": sc["fail"][0]["kind"]}]
+            elif r < 0.30:
+                sc["fail"] = [{"n": sc["fail"][0]["n"], "kind": "cancel"}]
+        sc.setdefault("maxcalls", 8)
     return scs
 
 
